@@ -183,7 +183,7 @@ def _get_case(cfg, values):
         r0 = o._rbits_
         v = getattr(o, cfg['attr'])
         return r0, o._rbits_, M.T._bits_[attr], v
-    return Case(call, {}, [])
+    return Case(call, {}, [], setup, teardown)
 
 
 def _get_spec(cfg, i, path):
